@@ -78,6 +78,7 @@ class Scheduler:
         self.stall_armed = False  # set by the harness when a termination trigger fires
         self.stall_total = 0.0
         self.until_waiters = []  # [thread, function name, lines still to see]
+        self.harness_failure = None
         self.quantum_len = 150
         self.marker_hooks = []
 
